@@ -259,7 +259,7 @@ def run(ctx):
 
     # 3. impl -> spec: recorded random histories validated line by line
     ctx.leg = "trace"
-    nh, nops = (40, 90) if q else (480, 150)
+    nh, nops = (40, 90) if q else (800, 150)
     ctx.params = {"histories": nh, "ops": nops}
     d = vlib.scratch("C02-rec")
     trace = os.path.join(d, "gamm.ndjson")
